@@ -226,6 +226,22 @@ Theorem C15_binary64_default_count_last_is_stop :
 Proof. exact binary64_default_count_normal_start. Qed.
 Print Assumptions C15_binary64_default_count_last_is_stop.
 
+(* with jitter as well: some fuel and some number n of draws exist such that, for every list of
+   at least n draws in [0,1], the result stays within the jitter bounds and its un-jittered value
+   at the last position is stop *)
+Theorem C15_binary64_default_count_jitter :
+  forall start stop factor j take,
+    let p := mkP ApiList start stop CNone factor j take in
+    must_raise prim_ops p = false -> PrimFloat.ltb PrimFloat.one factor = true ->
+    PrimFloat.eqb start PrimFloat.zero = true \/ PrimFloat.leb minnorm start = true ->
+    exists fuel n, forall draws, draws_ok prim_ops draws -> (n <= length draws)%nat ->
+      let o := run prim_ops p fuel draws in
+      o_end o = EStop /\ values_ok prim_ops p (o_vals o) = true /\
+      last_is prim_ops stop (if jitter_off prim_ops j then o_vals o
+                             else ideal prim_ops stop factor start (length (o_vals o))) = true.
+Proof. exact binary64_default_count_jitter. Qed.
+Print Assumptions C15_binary64_default_count_jitter.
+
 (* ---- the hypotheses are inhabited ------------------------------------------------------ *)
 (* the three law records are jointly satisfiable (exact integer arithmetic) *)
 Example C15_laws_satisfiable : order_laws z_ops /\ grow_laws z_ops /\ jitter_laws z_ops.
@@ -263,3 +279,11 @@ Example C15_ex_invalid :
   run prim_ops (mkP ApiList nan 1 (CNum 3) 2 0 0) 5 [] = mkObs [] (ERaise ValueError) /\
   run prim_ops (mkP ApiIter 8 2 (CNum 3) 2 0 1) 5 [] = mkObs [] (ERaise ValueError).
 Proof. vm_compute. auto. Qed.
+
+(* an input meeting the hypotheses of the binary64 default-count theorems *)
+Example C15_ex_normal_start :
+  must_raise prim_ops (mkP ApiList 0x1p-1022 3 CNone 1.5 (-0.5) 0%nat) = false /\
+  PrimFloat.ltb 1 1.5 = true /\ PrimFloat.leb minnorm 0x1p-1022 = true /\
+  spec_known prim_ops (mkP ApiList 0x1p-1074 3 CNone 0x1.0000000000001p+0 0 0%nat) 5%nat = true.
+Proof. vm_compute. auto. Qed.
+
